@@ -370,3 +370,411 @@ proof fn lemma_bit_index(n: usize, ind: usize)
         assert(n == 5 ==> ind < 32) by { assert((1usize << 5usize) == 32) by (bit_vector); }
     }
 }
+
+// ---------------------------------------------------------------------------------------------
+// Assignment-level vocabulary (what `value(m)` returns) and bridges from the word-level contracts
+pub open spec fn bitu(t: Seq<u64>, m: usize) -> bool { ((t[(m >> 6) as int] >> ((m & 63) as u64)) & 1) == 1 }
+
+proof fn lemma_flipw_bit(t: u64, ind: usize, k: u64)
+    requires ind <= 5, k < 64
+    ensures (flipw(t, ind) >> k) & 1 == (t >> (k ^ (1u64 << (ind as u64)))) & 1
+{
+    let m = vm(ind); let s = sh(ind) as u64; let iu = ind as u64;
+    assert(k < 64 && (
+       (iu == 0 && m == 0xaaaa_aaaa_aaaa_aaaau64 && s == 1) ||
+       (iu == 1 && m == 0xcccc_cccc_cccc_ccccu64 && s == 2) ||
+       (iu == 2 && m == 0xf0f0_f0f0_f0f0_f0f0u64 && s == 4) ||
+       (iu == 3 && m == 0xff00_ff00_ff00_ff00u64 && s == 8) ||
+       (iu == 4 && m == 0xffff_0000_ffff_0000u64 && s == 16) ||
+       (iu == 5 && m == 0xffff_ffff_0000_0000u64 && s == 32)) ==>
+       ((((t & m) >> s) | ((t & !m) << s)) >> k) & 1 == (t >> (k ^ (1u64 << iu))) & 1) by (bit_vector);
+}
+
+proof fn lemma_cofw_bit(t: u64, t2: u64, ind: usize, k: u64)
+    requires ind <= 5, k < 64
+    ensures
+        (cof0w(t, ind) >> k) & 1 == (t >> (k & !(1u64 << (ind as u64)))) & 1,
+        (cof1w(t, ind) >> k) & 1 == (t >> (k | (1u64 << (ind as u64)))) & 1,
+        (mergew(t, t2, ind) >> k) & 1 == (if (k >> (ind as u64)) & 1 == 1 { (t2 >> k) & 1 } else { (t >> k) & 1 }),
+{
+    let m = vm(ind); let s = sh(ind) as u64; let iu = ind as u64;
+    assert(k < 64 && (
+       (iu == 0 && m == 0xaaaa_aaaa_aaaa_aaaau64 && s == 1) ||
+       (iu == 1 && m == 0xcccc_cccc_cccc_ccccu64 && s == 2) ||
+       (iu == 2 && m == 0xf0f0_f0f0_f0f0_f0f0u64 && s == 4) ||
+       (iu == 3 && m == 0xff00_ff00_ff00_ff00u64 && s == 8) ||
+       (iu == 4 && m == 0xffff_0000_ffff_0000u64 && s == 16) ||
+       (iu == 5 && m == 0xffff_ffff_0000_0000u64 && s == 32)) ==>
+       ((((t & !m) | ((t & !m) << s)) >> k) & 1 == (t >> (k & !(1u64 << iu))) & 1)
+       && (((((t & m) >> s) | (t & m)) >> k) & 1 == (t >> (k | (1u64 << iu))) & 1)
+       && ((((t2 & m) | (t & !m)) >> k) & 1 == (if (k >> iu) & 1 == 1 { (t2 >> k) & 1 } else { (t >> k) & 1 }))
+    ) by (bit_vector);
+}
+
+// index arithmetic shared by the bridges: word / bit position of an assignment and of its neighbours
+proof fn lemma_assign_index(n: usize, ind: usize, m: usize)
+    requires n < 64, ind < n, m < (1usize << n)
+    ensures ({
+        let b = 1usize << ind;
+        &&& (m >> 6) < tsize(n)
+        &&& (m & 63) < 64
+        &&& (m ^ b) < (1usize << n) && (m & !b) < (1usize << n) && (m | b) < (1usize << n)
+        &&& ind <= 5 ==> ((m ^ b) >> 6) == (m >> 6) && ((m ^ b) & 63) == ((m & 63) ^ b)
+                      && ((m & !b) >> 6) == (m >> 6) && ((m & !b) & 63) == ((m & 63) & !b)
+                      && ((m | b) >> 6) == (m >> 6) && ((m | b) & 63) == ((m & 63) | b)
+                      && ((m >> ind) & 1) == (((m & 63) >> ind) & 1)
+        &&& ind >= 6 ==> ({
+                let s = 1usize << ((ind - 6) as usize);
+                &&& ((m ^ b) >> 6) == ((m >> 6) ^ s) && ((m ^ b) & 63) == (m & 63)
+                &&& ((m & !b) >> 6) == ((m >> 6) & !s) && ((m & !b) & 63) == (m & 63)
+                &&& ((m | b) >> 6) == ((m >> 6) | s) && ((m | b) & 63) == (m & 63)
+                &&& (((m >> ind) & 1) == 1) == (((m >> 6) & s) != 0)
+            })
+    })
+{
+    let e = if n > 6 { (n - 6) as usize } else { 0usize };
+    let b = 1usize << ind;
+    let s = if ind >= 6 { 1usize << ((ind - 6) as usize) } else { 0usize };
+    assert(n < 64 && ind < n && m < (1usize << n) && e == (if n > 6 { (n - 6) as usize } else { 0usize }) && b == 1usize << ind
+           && s == (if ind >= 6 { 1usize << ((ind - 6) as usize) } else { 0usize }) ==> (
+        (m >> 6) < (if n <= 6 { 1usize } else { 1usize << e })
+        && (m & 63) < 64
+        && (m ^ b) < (1usize << n) && (m & !b) < (1usize << n) && (m | b) < (1usize << n)
+        && (ind <= 5 ==> ((m ^ b) >> 6) == (m >> 6) && ((m ^ b) & 63) == ((m & 63) ^ b)
+                      && ((m & !b) >> 6) == (m >> 6) && ((m & !b) & 63) == ((m & 63) & !b)
+                      && ((m | b) >> 6) == (m >> 6) && ((m | b) & 63) == ((m & 63) | b)
+                      && ((m >> ind) & 1) == (((m & 63) >> ind) & 1))
+        && (ind >= 6 ==> ((m ^ b) >> 6) == ((m >> 6) ^ s) && ((m ^ b) & 63) == (m & 63)
+                      && ((m & !b) >> 6) == ((m >> 6) & !s) && ((m & !b) & 63) == (m & 63)
+                      && ((m | b) >> 6) == ((m >> 6) | s) && ((m | b) & 63) == (m & 63)
+                      && ((((m >> ind) & 1) == 1) == (((m >> 6) & s) != 0)))
+    )) by (bit_vector);
+}
+
+// assignment-level statements derived from the word-level contracts of the kernels
+pub proof fn lemma_flip_bits(n: usize, old_t: Seq<u64>, new_t: Seq<u64>, ind: usize, m: usize)
+    requires n < 64, ind < n, old_t.len() == tsize(n), new_t.len() == old_t.len(), m < (1usize << n),
+        ind <= 5 ==> forall|w: int| 0 <= w < old_t.len() ==> #[trigger] new_t[w] == flipw(old_t[w], ind),
+        ind >= 6 ==> forall|w: int| 0 <= w < old_t.len() ==> #[trigger] new_t[w] == old_t[((w as usize) ^ (1usize << ((ind - 6) as usize))) as int],
+    ensures bitu(new_t, m) == bitu(old_t, (m ^ (1usize << ind)) as usize), (m ^ (1usize << ind)) < (1usize << n),
+{
+    lemma_assign_index(n, ind, m);
+    let w = m >> 6; let k = (m & 63) as u64;
+    assert(new_t[w as int] == new_t[w as int]);
+    if ind <= 5 {
+        let t = old_t[w as int];
+        assert(new_t[w as int] == flipw(t, ind));
+        lemma_flipw_bit(t, ind, k);
+        let iu = ind as u64; let b = 1usize << ind;
+        assert(ind <= 5 && k == (m & 63) as u64 && iu == ind as u64 && b == 1usize << ind ==> (((m & 63) ^ b) as u64) == (k ^ (1u64 << iu))) by (bit_vector);
+    } else {
+        assert(new_t[w as int] == old_t[((w as usize) ^ (1usize << ((ind - 6) as usize))) as int]);
+    }
+}
+
+pub proof fn lemma_cof0_bits(n: usize, old_t: Seq<u64>, new_t: Seq<u64>, ind: usize, m: usize)
+    requires n < 64, ind < n, old_t.len() == tsize(n), new_t.len() == old_t.len(), m < (1usize << n),
+        ind <= 5 ==> forall|w: int| 0 <= w < old_t.len() ==> #[trigger] new_t[w] == cof0w(old_t[w], ind),
+        ind >= 6 ==> forall|w: int| 0 <= w < old_t.len() ==> #[trigger] new_t[w] == old_t[((w as usize) & !(1usize << ((ind - 6) as usize))) as int],
+    ensures bitu(new_t, m) == bitu(old_t, (m & !(1usize << ind)) as usize), (m & !(1usize << ind)) < (1usize << n),
+{
+    lemma_assign_index(n, ind, m);
+    let w = m >> 6; let k = (m & 63) as u64;
+    assert(new_t[w as int] == new_t[w as int]);
+    if ind <= 5 {
+        let t = old_t[w as int];
+        assert(new_t[w as int] == cof0w(t, ind));
+        lemma_cofw_bit(t, t, ind, k);
+        let iu = ind as u64; let b = 1usize << ind;
+        assert(ind <= 5 && k == (m & 63) as u64 && iu == ind as u64 && b == 1usize << ind ==> (((m & 63) & !b) as u64) == (k & !(1u64 << iu))) by (bit_vector);
+    } else {
+        assert(new_t[w as int] == old_t[((w as usize) & !(1usize << ((ind - 6) as usize))) as int]);
+    }
+}
+
+pub proof fn lemma_cof1_bits(n: usize, old_t: Seq<u64>, new_t: Seq<u64>, ind: usize, m: usize)
+    requires n < 64, ind < n, old_t.len() == tsize(n), new_t.len() == old_t.len(), m < (1usize << n),
+        ind <= 5 ==> forall|w: int| 0 <= w < old_t.len() ==> #[trigger] new_t[w] == cof1w(old_t[w], ind),
+        ind >= 6 ==> forall|w: int| 0 <= w < old_t.len() ==> #[trigger] new_t[w] == old_t[((w as usize) | (1usize << ((ind - 6) as usize))) as int],
+    ensures bitu(new_t, m) == bitu(old_t, (m | (1usize << ind)) as usize), (m | (1usize << ind)) < (1usize << n),
+{
+    lemma_assign_index(n, ind, m);
+    let w = m >> 6; let k = (m & 63) as u64;
+    assert(new_t[w as int] == new_t[w as int]);
+    if ind <= 5 {
+        let t = old_t[w as int];
+        assert(new_t[w as int] == cof1w(t, ind));
+        lemma_cofw_bit(t, t, ind, k);
+        let iu = ind as u64; let b = 1usize << ind;
+        assert(ind <= 5 && k == (m & 63) as u64 && iu == ind as u64 && b == 1usize << ind ==> (((m & 63) | b) as u64) == (k | (1u64 << iu))) by (bit_vector);
+    } else {
+        assert(new_t[w as int] == old_t[((w as usize) | (1usize << ((ind - 6) as usize))) as int]);
+    }
+}
+
+pub proof fn lemma_merge_bits(n: usize, t0: Seq<u64>, t1: Seq<u64>, new_t: Seq<u64>, ind: usize, m: usize)
+    requires n < 64, ind < n, t0.len() == tsize(n), t1.len() == tsize(n), new_t.len() == tsize(n), m < (1usize << n),
+        ind <= 5 ==> forall|w: int| 0 <= w < new_t.len() ==> #[trigger] new_t[w] == mergew(t0[w], t1[w], ind),
+        ind >= 6 ==> forall|w: int| 0 <= w < new_t.len() ==> #[trigger] new_t[w] ==
+            (if ((w as usize) & (1usize << ((ind - 6) as usize))) == 0 { t0[w] } else { t1[w] }),
+    ensures bitu(new_t, m) == (if ((m >> ind) & 1) == 1 { bitu(t1, m) } else { bitu(t0, m) }),
+{
+    lemma_assign_index(n, ind, m);
+    let w = m >> 6; let k = (m & 63) as u64;
+    assert(new_t[w as int] == new_t[w as int]);
+    if ind <= 5 {
+        assert(new_t[w as int] == mergew(t0[w as int], t1[w as int], ind));
+        lemma_cofw_bit(t0[w as int], t1[w as int], ind, k);
+        let iu = ind as u64;
+        assert(ind <= 5 && k == (m & 63) as u64 && iu == ind as u64 ==> ((((m & 63) >> ind) & 1) == 1) == (((k >> iu) & 1) == 1)) by (bit_vector);
+    } else {
+    }
+}
+
+pub proof fn lemma_not_bits(n: usize, old_t: Seq<u64>, new_t: Seq<u64>, m: usize)
+    requires n < 64, wf(n, old_t), new_t.len() == old_t.len(), m < (1usize << n),
+        forall|w: int| 0 <= w < old_t.len() ==> #[trigger] new_t[w] == nmask(n) & !old_t[w],
+    ensures bitu(new_t, m) == !bitu(old_t, m),
+{
+    lemma_bit_index(n, m);
+    let w = m >> 6; let k = (m & 63) as u64;
+    let x = old_t[w as int]; let mk = nmask(n);
+    assert(new_t[w as int] == mk & !x);
+    // bit k lies inside the mask
+    assert(((1u64 << k) & !mk) == 0 && k < 64 ==> (((mk & !x) >> k) & 1 == 1) == !((x >> k) & 1 == 1)) by (bit_vector);
+    if n >= 6 {
+        assert(k < 64 ==> ((1u64 << k) & !0xffff_ffff_ffff_ffffu64) == 0) by (bit_vector);
+    }
+}
+
+// representation invariant (no bit at a position >= 2^n) is preserved by the per-word actions, n < 6
+proof fn lemma_word_wf(t: u64, t2: u64, n: usize, ind: usize)
+    requires ind < n < 6, (t & !nmask(n)) == 0, (t2 & !nmask(n)) == 0
+    ensures (flipw(t, ind) & !nmask(n)) == 0, (cof0w(t, ind) & !nmask(n)) == 0, (cof1w(t, ind) & !nmask(n)) == 0,
+        (mergew(t, t2, ind) & !nmask(n)) == 0,
+{
+    let m = vm(ind); let s = sh(ind) as u64; let k = nmask(n);
+    if n == 1 && ind == 0 {
+        assert(m == 0xaaaa_aaaa_aaaa_aaaau64 && s == 1 && k == 0x3u64 && (t & !k) == 0 && (t2 & !k) == 0 ==>
+            ((((t & m) >> s) | ((t & !m) << s)) & !k) == 0 && (((t & !m) | ((t & !m) << s)) & !k) == 0
+            && ((((t & m) >> s) | (t & m)) & !k) == 0 && (((t2 & m) | (t & !m)) & !k) == 0) by (bit_vector);
+    }
+    if n == 2 && ind == 0 {
+        assert(m == 0xaaaa_aaaa_aaaa_aaaau64 && s == 1 && k == 0xfu64 && (t & !k) == 0 && (t2 & !k) == 0 ==>
+            ((((t & m) >> s) | ((t & !m) << s)) & !k) == 0 && (((t & !m) | ((t & !m) << s)) & !k) == 0
+            && ((((t & m) >> s) | (t & m)) & !k) == 0 && (((t2 & m) | (t & !m)) & !k) == 0) by (bit_vector);
+    }
+    if n == 2 && ind == 1 {
+        assert(m == 0xcccc_cccc_cccc_ccccu64 && s == 2 && k == 0xfu64 && (t & !k) == 0 && (t2 & !k) == 0 ==>
+            ((((t & m) >> s) | ((t & !m) << s)) & !k) == 0 && (((t & !m) | ((t & !m) << s)) & !k) == 0
+            && ((((t & m) >> s) | (t & m)) & !k) == 0 && (((t2 & m) | (t & !m)) & !k) == 0) by (bit_vector);
+    }
+    if n == 3 && ind == 0 {
+        assert(m == 0xaaaa_aaaa_aaaa_aaaau64 && s == 1 && k == 0xffu64 && (t & !k) == 0 && (t2 & !k) == 0 ==>
+            ((((t & m) >> s) | ((t & !m) << s)) & !k) == 0 && (((t & !m) | ((t & !m) << s)) & !k) == 0
+            && ((((t & m) >> s) | (t & m)) & !k) == 0 && (((t2 & m) | (t & !m)) & !k) == 0) by (bit_vector);
+    }
+    if n == 3 && ind == 1 {
+        assert(m == 0xcccc_cccc_cccc_ccccu64 && s == 2 && k == 0xffu64 && (t & !k) == 0 && (t2 & !k) == 0 ==>
+            ((((t & m) >> s) | ((t & !m) << s)) & !k) == 0 && (((t & !m) | ((t & !m) << s)) & !k) == 0
+            && ((((t & m) >> s) | (t & m)) & !k) == 0 && (((t2 & m) | (t & !m)) & !k) == 0) by (bit_vector);
+    }
+    if n == 3 && ind == 2 {
+        assert(m == 0xf0f0_f0f0_f0f0_f0f0u64 && s == 4 && k == 0xffu64 && (t & !k) == 0 && (t2 & !k) == 0 ==>
+            ((((t & m) >> s) | ((t & !m) << s)) & !k) == 0 && (((t & !m) | ((t & !m) << s)) & !k) == 0
+            && ((((t & m) >> s) | (t & m)) & !k) == 0 && (((t2 & m) | (t & !m)) & !k) == 0) by (bit_vector);
+    }
+    if n == 4 && ind == 0 {
+        assert(m == 0xaaaa_aaaa_aaaa_aaaau64 && s == 1 && k == 0xffffu64 && (t & !k) == 0 && (t2 & !k) == 0 ==>
+            ((((t & m) >> s) | ((t & !m) << s)) & !k) == 0 && (((t & !m) | ((t & !m) << s)) & !k) == 0
+            && ((((t & m) >> s) | (t & m)) & !k) == 0 && (((t2 & m) | (t & !m)) & !k) == 0) by (bit_vector);
+    }
+    if n == 4 && ind == 1 {
+        assert(m == 0xcccc_cccc_cccc_ccccu64 && s == 2 && k == 0xffffu64 && (t & !k) == 0 && (t2 & !k) == 0 ==>
+            ((((t & m) >> s) | ((t & !m) << s)) & !k) == 0 && (((t & !m) | ((t & !m) << s)) & !k) == 0
+            && ((((t & m) >> s) | (t & m)) & !k) == 0 && (((t2 & m) | (t & !m)) & !k) == 0) by (bit_vector);
+    }
+    if n == 4 && ind == 2 {
+        assert(m == 0xf0f0_f0f0_f0f0_f0f0u64 && s == 4 && k == 0xffffu64 && (t & !k) == 0 && (t2 & !k) == 0 ==>
+            ((((t & m) >> s) | ((t & !m) << s)) & !k) == 0 && (((t & !m) | ((t & !m) << s)) & !k) == 0
+            && ((((t & m) >> s) | (t & m)) & !k) == 0 && (((t2 & m) | (t & !m)) & !k) == 0) by (bit_vector);
+    }
+    if n == 4 && ind == 3 {
+        assert(m == 0xff00_ff00_ff00_ff00u64 && s == 8 && k == 0xffffu64 && (t & !k) == 0 && (t2 & !k) == 0 ==>
+            ((((t & m) >> s) | ((t & !m) << s)) & !k) == 0 && (((t & !m) | ((t & !m) << s)) & !k) == 0
+            && ((((t & m) >> s) | (t & m)) & !k) == 0 && (((t2 & m) | (t & !m)) & !k) == 0) by (bit_vector);
+    }
+    if n == 5 && ind == 0 {
+        assert(m == 0xaaaa_aaaa_aaaa_aaaau64 && s == 1 && k == 0xffff_ffffu64 && (t & !k) == 0 && (t2 & !k) == 0 ==>
+            ((((t & m) >> s) | ((t & !m) << s)) & !k) == 0 && (((t & !m) | ((t & !m) << s)) & !k) == 0
+            && ((((t & m) >> s) | (t & m)) & !k) == 0 && (((t2 & m) | (t & !m)) & !k) == 0) by (bit_vector);
+    }
+    if n == 5 && ind == 1 {
+        assert(m == 0xcccc_cccc_cccc_ccccu64 && s == 2 && k == 0xffff_ffffu64 && (t & !k) == 0 && (t2 & !k) == 0 ==>
+            ((((t & m) >> s) | ((t & !m) << s)) & !k) == 0 && (((t & !m) | ((t & !m) << s)) & !k) == 0
+            && ((((t & m) >> s) | (t & m)) & !k) == 0 && (((t2 & m) | (t & !m)) & !k) == 0) by (bit_vector);
+    }
+    if n == 5 && ind == 2 {
+        assert(m == 0xf0f0_f0f0_f0f0_f0f0u64 && s == 4 && k == 0xffff_ffffu64 && (t & !k) == 0 && (t2 & !k) == 0 ==>
+            ((((t & m) >> s) | ((t & !m) << s)) & !k) == 0 && (((t & !m) | ((t & !m) << s)) & !k) == 0
+            && ((((t & m) >> s) | (t & m)) & !k) == 0 && (((t2 & m) | (t & !m)) & !k) == 0) by (bit_vector);
+    }
+    if n == 5 && ind == 3 {
+        assert(m == 0xff00_ff00_ff00_ff00u64 && s == 8 && k == 0xffff_ffffu64 && (t & !k) == 0 && (t2 & !k) == 0 ==>
+            ((((t & m) >> s) | ((t & !m) << s)) & !k) == 0 && (((t & !m) | ((t & !m) << s)) & !k) == 0
+            && ((((t & m) >> s) | (t & m)) & !k) == 0 && (((t2 & m) | (t & !m)) & !k) == 0) by (bit_vector);
+    }
+    if n == 5 && ind == 4 {
+        assert(m == 0xffff_0000_ffff_0000u64 && s == 16 && k == 0xffff_ffffu64 && (t & !k) == 0 && (t2 & !k) == 0 ==>
+            ((((t & m) >> s) | ((t & !m) << s)) & !k) == 0 && (((t & !m) | ((t & !m) << s)) & !k) == 0
+            && ((((t & m) >> s) | (t & m)) & !k) == 0 && (((t2 & m) | (t & !m)) & !k) == 0) by (bit_vector);
+    }
+}
+
+proof fn lemma_swapw_wf(t: u64, n: usize, i: usize, j: usize)
+    requires j < i < n < 6, (t & !nmask(n)) == 0
+    ensures (swapw(t, i, j) & !nmask(n)) == 0
+{
+    let ml = sm(i, j); let k = nmask(n);
+    let iu = i as u64; let ju = j as u64;
+    let sh = ((1u64 << iu) - (1u64 << ju)) as u64;
+    assert(ju < iu && iu <= 5 ==> (1u64 << iu) > (1u64 << ju)) by (bit_vector);
+    assert(sh == sub((1u64 << iu), (1u64 << ju)));
+    if n == 2 && i == 1 && j == 0 {
+        assert(iu == 1 && ju == 0 && sh == sub((1u64 << iu), (1u64 << ju)) && ml == 0x2222222222222222u64 && k == 0xfu64 && (t & !k) == 0 ==>
+            (((t & !ml & !(ml << sh)) | ((t & ml) << sh) | ((t & (ml << sh)) >> sh)) & !k) == 0) by (bit_vector);
+    }
+    if n == 3 && i == 1 && j == 0 {
+        assert(iu == 1 && ju == 0 && sh == sub((1u64 << iu), (1u64 << ju)) && ml == 0x2222222222222222u64 && k == 0xffu64 && (t & !k) == 0 ==>
+            (((t & !ml & !(ml << sh)) | ((t & ml) << sh) | ((t & (ml << sh)) >> sh)) & !k) == 0) by (bit_vector);
+    }
+    if n == 3 && i == 2 && j == 0 {
+        assert(iu == 2 && ju == 0 && sh == sub((1u64 << iu), (1u64 << ju)) && ml == 0x0a0a0a0a0a0a0a0au64 && k == 0xffu64 && (t & !k) == 0 ==>
+            (((t & !ml & !(ml << sh)) | ((t & ml) << sh) | ((t & (ml << sh)) >> sh)) & !k) == 0) by (bit_vector);
+    }
+    if n == 3 && i == 2 && j == 1 {
+        assert(iu == 2 && ju == 1 && sh == sub((1u64 << iu), (1u64 << ju)) && ml == 0x0c0c0c0c0c0c0c0cu64 && k == 0xffu64 && (t & !k) == 0 ==>
+            (((t & !ml & !(ml << sh)) | ((t & ml) << sh) | ((t & (ml << sh)) >> sh)) & !k) == 0) by (bit_vector);
+    }
+    if n == 4 && i == 1 && j == 0 {
+        assert(iu == 1 && ju == 0 && sh == sub((1u64 << iu), (1u64 << ju)) && ml == 0x2222222222222222u64 && k == 0xffffu64 && (t & !k) == 0 ==>
+            (((t & !ml & !(ml << sh)) | ((t & ml) << sh) | ((t & (ml << sh)) >> sh)) & !k) == 0) by (bit_vector);
+    }
+    if n == 4 && i == 2 && j == 0 {
+        assert(iu == 2 && ju == 0 && sh == sub((1u64 << iu), (1u64 << ju)) && ml == 0x0a0a0a0a0a0a0a0au64 && k == 0xffffu64 && (t & !k) == 0 ==>
+            (((t & !ml & !(ml << sh)) | ((t & ml) << sh) | ((t & (ml << sh)) >> sh)) & !k) == 0) by (bit_vector);
+    }
+    if n == 4 && i == 2 && j == 1 {
+        assert(iu == 2 && ju == 1 && sh == sub((1u64 << iu), (1u64 << ju)) && ml == 0x0c0c0c0c0c0c0c0cu64 && k == 0xffffu64 && (t & !k) == 0 ==>
+            (((t & !ml & !(ml << sh)) | ((t & ml) << sh) | ((t & (ml << sh)) >> sh)) & !k) == 0) by (bit_vector);
+    }
+    if n == 4 && i == 3 && j == 0 {
+        assert(iu == 3 && ju == 0 && sh == sub((1u64 << iu), (1u64 << ju)) && ml == 0x00aa00aa00aa00aau64 && k == 0xffffu64 && (t & !k) == 0 ==>
+            (((t & !ml & !(ml << sh)) | ((t & ml) << sh) | ((t & (ml << sh)) >> sh)) & !k) == 0) by (bit_vector);
+    }
+    if n == 4 && i == 3 && j == 1 {
+        assert(iu == 3 && ju == 1 && sh == sub((1u64 << iu), (1u64 << ju)) && ml == 0x00cc00cc00cc00ccu64 && k == 0xffffu64 && (t & !k) == 0 ==>
+            (((t & !ml & !(ml << sh)) | ((t & ml) << sh) | ((t & (ml << sh)) >> sh)) & !k) == 0) by (bit_vector);
+    }
+    if n == 4 && i == 3 && j == 2 {
+        assert(iu == 3 && ju == 2 && sh == sub((1u64 << iu), (1u64 << ju)) && ml == 0x00f000f000f000f0u64 && k == 0xffffu64 && (t & !k) == 0 ==>
+            (((t & !ml & !(ml << sh)) | ((t & ml) << sh) | ((t & (ml << sh)) >> sh)) & !k) == 0) by (bit_vector);
+    }
+    if n == 5 && i == 1 && j == 0 {
+        assert(iu == 1 && ju == 0 && sh == sub((1u64 << iu), (1u64 << ju)) && ml == 0x2222222222222222u64 && k == 0xffff_ffffu64 && (t & !k) == 0 ==>
+            (((t & !ml & !(ml << sh)) | ((t & ml) << sh) | ((t & (ml << sh)) >> sh)) & !k) == 0) by (bit_vector);
+    }
+    if n == 5 && i == 2 && j == 0 {
+        assert(iu == 2 && ju == 0 && sh == sub((1u64 << iu), (1u64 << ju)) && ml == 0x0a0a0a0a0a0a0a0au64 && k == 0xffff_ffffu64 && (t & !k) == 0 ==>
+            (((t & !ml & !(ml << sh)) | ((t & ml) << sh) | ((t & (ml << sh)) >> sh)) & !k) == 0) by (bit_vector);
+    }
+    if n == 5 && i == 2 && j == 1 {
+        assert(iu == 2 && ju == 1 && sh == sub((1u64 << iu), (1u64 << ju)) && ml == 0x0c0c0c0c0c0c0c0cu64 && k == 0xffff_ffffu64 && (t & !k) == 0 ==>
+            (((t & !ml & !(ml << sh)) | ((t & ml) << sh) | ((t & (ml << sh)) >> sh)) & !k) == 0) by (bit_vector);
+    }
+    if n == 5 && i == 3 && j == 0 {
+        assert(iu == 3 && ju == 0 && sh == sub((1u64 << iu), (1u64 << ju)) && ml == 0x00aa00aa00aa00aau64 && k == 0xffff_ffffu64 && (t & !k) == 0 ==>
+            (((t & !ml & !(ml << sh)) | ((t & ml) << sh) | ((t & (ml << sh)) >> sh)) & !k) == 0) by (bit_vector);
+    }
+    if n == 5 && i == 3 && j == 1 {
+        assert(iu == 3 && ju == 1 && sh == sub((1u64 << iu), (1u64 << ju)) && ml == 0x00cc00cc00cc00ccu64 && k == 0xffff_ffffu64 && (t & !k) == 0 ==>
+            (((t & !ml & !(ml << sh)) | ((t & ml) << sh) | ((t & (ml << sh)) >> sh)) & !k) == 0) by (bit_vector);
+    }
+    if n == 5 && i == 3 && j == 2 {
+        assert(iu == 3 && ju == 2 && sh == sub((1u64 << iu), (1u64 << ju)) && ml == 0x00f000f000f000f0u64 && k == 0xffff_ffffu64 && (t & !k) == 0 ==>
+            (((t & !ml & !(ml << sh)) | ((t & ml) << sh) | ((t & (ml << sh)) >> sh)) & !k) == 0) by (bit_vector);
+    }
+    if n == 5 && i == 4 && j == 0 {
+        assert(iu == 4 && ju == 0 && sh == sub((1u64 << iu), (1u64 << ju)) && ml == 0x0000aaaa0000aaaau64 && k == 0xffff_ffffu64 && (t & !k) == 0 ==>
+            (((t & !ml & !(ml << sh)) | ((t & ml) << sh) | ((t & (ml << sh)) >> sh)) & !k) == 0) by (bit_vector);
+    }
+    if n == 5 && i == 4 && j == 1 {
+        assert(iu == 4 && ju == 1 && sh == sub((1u64 << iu), (1u64 << ju)) && ml == 0x0000cccc0000ccccu64 && k == 0xffff_ffffu64 && (t & !k) == 0 ==>
+            (((t & !ml & !(ml << sh)) | ((t & ml) << sh) | ((t & (ml << sh)) >> sh)) & !k) == 0) by (bit_vector);
+    }
+    if n == 5 && i == 4 && j == 2 {
+        assert(iu == 4 && ju == 2 && sh == sub((1u64 << iu), (1u64 << ju)) && ml == 0x0000f0f00000f0f0u64 && k == 0xffff_ffffu64 && (t & !k) == 0 ==>
+            (((t & !ml & !(ml << sh)) | ((t & ml) << sh) | ((t & (ml << sh)) >> sh)) & !k) == 0) by (bit_vector);
+    }
+    if n == 5 && i == 4 && j == 3 {
+        assert(iu == 4 && ju == 3 && sh == sub((1u64 << iu), (1u64 << ju)) && ml == 0x0000ff000000ff00u64 && k == 0xffff_ffffu64 && (t & !k) == 0 ==>
+            (((t & !ml & !(ml << sh)) | ((t & ml) << sh) | ((t & (ml << sh)) >> sh)) & !k) == 0) by (bit_vector);
+    }
+}
+
+// whole-table postcondition of swap (all three storage regimes), shared by swap_inplace, swap_adjacent_inplace and their callers
+pub open spec fn swap_post(n: usize, o: Seq<u64>, f: Seq<u64>, ind1: usize, ind2: usize) -> bool {
+    &&& f.len() == o.len()
+    &&& ind1 == ind2 ==> f == o
+    &&& ind1 != ind2 && ind1 <= 5 && ind2 <= 5 ==> forall|w: int| 0 <= w < o.len() ==>
+            #[trigger] f[w] == swapw(o[w], if ind1 > ind2 { ind1 } else { ind2 }, if ind1 > ind2 { ind2 } else { ind1 })
+    &&& ind1 != ind2 && (ind1 <= 5) != (ind2 <= 5) ==> forall|w: int| 0 <= w < o.len() ==>
+            #[trigger] f[w] == ({
+                let hi = if ind1 > ind2 { ind1 } else { ind2 }; let lo = if ind1 > ind2 { ind2 } else { ind1 };
+                let mi = 1usize << ((hi - 6) as usize);
+                let wu = w as usize;
+                if (wu & mi) == 0 { cross_lo(o[(wu & !mi) as int], o[(wu | mi) as int], lo) }
+                else { cross_hi(o[(wu & !mi) as int], o[(wu | mi) as int], lo) }
+            })
+    &&& ind1 != ind2 && ind1 >= 6 && ind2 >= 6 ==> forall|w: int| 0 <= w < o.len() ==>
+            #[trigger] f[w] == (if is_mixed(w as usize, 1usize << ((ind1 - 6) as usize), 1usize << ((ind2 - 6) as usize))
+                { o[((w as usize) ^ (1usize << ((ind1 - 6) as usize)) ^ (1usize << ((ind2 - 6) as usize))) as int] } else { o[w] })
+}
+
+proof fn lemma_wrap_succ(x: u64, y: u64, m: u64)
+    requires y == (if x + 1 > u64::MAX { (x + 1 - 0x1_0000_0000_0000_0000) as u64 } else { (x + 1) as u64 })
+    ensures y == add(x, 1u64), (y & m) == (m & add(x, 1u64))
+{
+    if x == u64::MAX { assert(add(x, 1u64) == 0) by(bit_vector) requires x == 0xffff_ffff_ffff_ffffu64; } else { assert(add(x, 1u64) == x + 1); }
+    assert(y & m == m & y) by(bit_vector);
+}
+
+proof fn lemma_bit_update(x: u64, k: u64, j: u64)
+    requires k < 64, j < 64
+    ensures
+        ((x & (1u64 << k)) != 0) == (((x >> k) & 1) == 1),
+        (((x | (1u64 << k)) >> j) & 1) == (if j == k { 1u64 } else { (x >> j) & 1 }),
+        (((x & !(1u64 << k)) >> j) & 1) == (if j == k { 0u64 } else { (x >> j) & 1 }),
+{
+    assert(k < 64 && j < 64 ==> (((x & (1u64 << k)) != 0) == (((x >> k) & 1) == 1))
+        && ((((x | (1u64 << k)) >> j) & 1) == (if j == k { 1u64 } else { (x >> j) & 1 }))
+        && ((((x & !(1u64 << k)) >> j) & 1) == (if j == k { 0u64 } else { (x >> j) & 1 }))) by (bit_vector);
+}
+proof fn lemma_split_index(a: usize, b: usize)
+    ensures (a == b) == ((a >> 6) == (b >> 6) && (a & 63) == (b & 63)), (a & 63) == (a & 0x3f),
+{
+    assert((a == b) == ((a >> 6) == (b >> 6) && (a & 63) == (b & 63))) by (bit_vector);
+}
+pub proof fn lemma_setbit_bits(n: usize, o: Seq<u64>, f: Seq<u64>, ind: usize, m: usize)
+    requires n < 64, o.len() == tsize(n), ind < (1usize << n), m < (1usize << n),
+    ensures
+        f =~= o.update((ind >> 6) as int, o[(ind >> 6) as int] | (1u64 << ((ind & 0x3f) as u64))) ==> bitu(f, m) == (m == ind || bitu(o, m)),
+        f =~= o.update((ind >> 6) as int, o[(ind >> 6) as int] & !(1u64 << ((ind & 0x3f) as u64))) ==> bitu(f, m) == (m != ind && bitu(o, m)),
+        bitu(o, ind) == ((o[(ind >> 6) as int] & (1u64 << ((ind & 0x3f) as u64))) != 0),
+{
+    lemma_bit_index(n, ind); lemma_bit_index(n, m); lemma_split_index(ind, m); lemma_split_index(m, ind);
+    let k = (ind & 0x3f) as u64; let j = (m & 63) as u64;
+    lemma_bit_update(o[(ind >> 6) as int], k, j);
+    lemma_bit_update(o[(ind >> 6) as int], k, k);
+    assert((ind & 63) == (ind & 0x3f)) by (bit_vector);
+}
